@@ -68,6 +68,10 @@ type pcase struct {
 	// Flip lists resource names that the reconcile under test desires at apiVersion v2 although
 	// they were composed at v1 (same kind: the name keeps its kind, as the quantifier requires)
 	Flip []string `json:"flipVersion,omitempty"`
+	// RenameBody: from the reconcile under test on, the first step no longer emits resource "a" but
+	// emits "a-renamed" with the BODY IT OBSERVED for "a" (metadata, annotations and all), as a
+	// function does that patches what it observes; the renamed resource is desired from then on
+	RenameBody bool `json:"renameWithObservedBody,omitempty"`
 	// SameNameNS: all composed resources are namespaced objects of one kind and ONE metadata.name,
 	// told apart only by their namespace
 	SameNameNS bool `json:"sameNameAcrossNamespaces,omitempty"`
@@ -101,6 +105,10 @@ func (p *pcase) finalDesired() map[string]bool {
 		for _, n := range s.Del {
 			delete(d, n)
 		}
+	}
+	if p.RenameBody {
+		delete(d, "a")
+		d["a-renamed"] = true
 	}
 	return d
 }
@@ -169,6 +177,16 @@ func genCase(c *kit.Ctx, i int) pcase {
 		if r.IntN(5) == 0 {
 			p.Flip = append(p.Flip, n)
 		}
+	}
+	if fails, _, _ := p.failing(); !fails && !p.SameNameNS && !p.ObserveErr && p.GCFault == "" && c.Rng("rename", i).IntN(4) == 0 {
+		hasA, flipA := false, false
+		for _, n := range p.Initial {
+			hasA = hasA || n == "a"
+		}
+		for _, n := range p.Flip {
+			flipA = flipA || n == "a"
+		}
+		p.RenameBody = hasA && !flipA
 	}
 	return p
 }
@@ -291,6 +309,20 @@ func (w *worker) program(step int, req *fnv1.RunFunctionRequest) (*fnv1.RunFunct
 	}
 	for _, n := range b.Del {
 		delete(d.Resources, n)
+	}
+	if p.RenameBody && step == len(p.Steps)-1 {
+		delete(d.Resources, "a")
+		for _, from := range []string{"a-renamed", "a"} {
+			if o := req.GetObserved().GetResources()[from]; o != nil {
+				d.Resources["a-renamed"] = &fnv1.Resource{Resource: o.GetResource(), Ready: fnv1.Ready_READY_TRUE}
+				break
+			}
+		}
+		if d.Resources["a-renamed"] == nil {
+			_ = addRes(d, "a", false, p.SameNameNS)
+			d.Resources["a-renamed"] = d.Resources["a"]
+			delete(d.Resources, "a")
+		}
 	}
 	rsp := &fnv1.RunFunctionResponse{Desired: d}
 	reqName := func(k int) *fnv1.Requirements {
@@ -585,6 +617,32 @@ func (w *worker) runCase(i int, name string) {
 			}
 		}
 		c.Count("gc_deletes", int64(len(deletedNames)))
+		// steady state: the same pipeline output once more. Whatever is desired now was desired a
+		// moment ago: nothing composed may be deleted (or created again), not even transiently.
+		if rerr == nil && succeeded {
+			for k := range w.rnd {
+				w.mu.Lock()
+				w.rnd[k] = 0
+				w.mu.Unlock()
+			}
+			for again := 1; again <= 2; again++ {
+				sf := world.LogLen()
+				_, _, _ = env.Reconcile("xr1")
+				for _, e := range world.Log(sf) {
+					if !isComposedKind(e.Key) || !e.Changed || e.DryRun {
+						continue
+					}
+					if e.Verb == "delete" || (e.Before == nil && e.After != nil) {
+						what := "deleted"
+						if e.Verb != "delete" {
+							what = "created"
+						}
+						c.Violate("steady-state-resource-"+what, name, fmt.Sprintf("steady-state reconcile +%d (same pipeline output as the reconcile before) %s a composed resource: %s", again, what, e.Short()), witness())
+					}
+				}
+				c.Count("steady_state_reconciles", 1)
+			}
+		}
 	}
 	nontrivial := existedBefore >= 1 && (!fail || failStep != 0 || p.ObserveErr)
 	c.Eval(kit.JSON(p), nontrivial)
